@@ -31,6 +31,7 @@ import E2P.Model.Quote
 import E2P.Model.Refs
 import E2P.Model.Safety
 import E2P.Model.Ops
+import E2P.Model.Criteria
 import E2P.Generated.RuntimeConsts
 open E2P
 
@@ -707,6 +708,76 @@ def handleOps (args : List String) : String :=
           s!"{model} | {spec} | "
   | _ => "bad-op"
 
+/-! criteria: a structured criterion is `n <op> <number val>` | `t <op> <S text>`; ops as in `cmp`
+    `cr <rendered criterion val> ; <structured> ; <cell val>`        → does the cell meet the criterion
+    `ci (sumifs|countifs|sumif) <target list val> <k> {<range list val> <rendered val> <structured>}` -/
+def parseCrit : List String → Option (Crit × List String)
+  | "n" :: op :: r => do
+    let o ← CmpOp.ofPy op
+    let (v, r) ← decVal r
+    match v with
+    | .int z => some (.num o (z : Rat), r)
+    | .flt q => some (.num o q, r)
+    | _ => none
+  | "t" :: op :: r => do
+    let o ← CmpOp.ofPy op
+    let (v, r) ← decVal r
+    match v with
+    | .str s => some (.text o s, r)
+    | _ => none
+  | _ => none
+
+def bStr (b : Bool) : String := if b then "T" else "F"
+
+def handleCrit (args : List String) : String :=
+  match (do
+    let (rendered, r) ← decVal args
+    let (cr, r) ← parseCrit r
+    let (cell, r) ← decVal r
+    if r.isEmpty then some (rendered, cr, cell) else none) with
+  | none => "bad-op"
+  | some (rendered, cr, cell) =>
+    let model := match decodeCrit parseNum rendered with
+      | some d => bStr (critAccepts d cell)
+      | none => "EUnmodelled"
+    s!"{model} | {bStr (critAccepts cr cell)} | "
+
+def listOf : Val → Option (List Val) | .list vs => some vs | _ => none
+
+def handleCondAgg (args : List String) : String :=
+  match args with
+  | fn :: rest =>
+    match (do
+      let (tv, r) ← decVal rest
+      let target ← listOf tv
+      let (k, r) ← takeNat r
+      let (pairs, r) ← parseMany (fun r => do
+        let (rv, r) ← decVal r
+        let rng ← listOf rv
+        let (rendered, r) ← decVal r
+        let (cr, r) ← parseCrit r
+        some ((rng, rendered, cr), r)) k r
+      if r.isEmpty then some (target, pairs) else none) with
+    | none => "bad-op"
+    | some (target, pairs) =>
+      let decoded := pairs.mapM fun (rng, rendered, _) => (decodeCrit parseNum rendered).map fun d => (rng, d)
+      let structured := pairs.map fun (rng, _, cr) => (rng, cr)
+      let blanky := pairs.any fun (rng, _, _) => rng.any fun v => match v with | .blank | .none | .bool _ => true | _ => false
+      let run := fun (ps : List (List Val × Crit)) => match fn with
+        | "sumifs" => encResU (sumifsF (flattenL target) (ps.map fun (r, c) => (flattenL r, c)))
+        | "countifs" => (match ps with
+          | (r0, c0) :: more => (match countifsF (flattenL r0) c0 (more.map fun (r, c) => (flattenL r, c)) with
+            | .ok n => s!"I{n}" | .error e => "E" ++ e.name)
+          | [] => "bad-op")
+        | "sumif" => (match ps with
+          | [(r0, c0)] => encResU (sumIfF (flattenL r0) c0 (flattenL target))
+          | _ => "bad-op")
+        | _ => "bad-op"
+      let model := match decoded with | some ps => run ps | none => "EUnmodelled"
+      let spec := if blanky then "-" else run structured
+      s!"{model} | {spec} | "
+  | _ => "bad-op"
+
 def handle (line : String) : String :=
   match tokens line with
   | "echo" :: rest =>
@@ -729,6 +800,8 @@ def handle (line : String) : String :=
   | "rf" :: rest => handleRefs rest
   | "sf" :: rest => handleSafety rest
   | "op" :: rest => handleOps rest
+  | "cr" :: rest => handleCrit rest
+  | "ci" :: rest => handleCondAgg rest
   | "sk" :: rest => handleSafetyKey rest
   | _ => "bad-op"
 
